@@ -5,6 +5,7 @@
     This file contains only statements (closed by [exact]), their pins and
     their assumptions. Strings are byte lists: '/' = 47, '~' = 126, '0' = 48, '1' = 49. *)
 From RepeV Require Import Model.JsonPtr Model.Router Proofs.JsonPtrProofs Proofs.RouterProofs.
+From RepeV Require Import Gen.Tables Proofs.TablesC01 Proofs.TablesMisc.
 
 (** ** struct segments vs RFC 6901 *)
 
@@ -349,3 +350,11 @@ Print Assumptions C07_struct_ignores.
 Print Assumptions C07_holds.
 Print Assumptions C07_oracle_struct_sound.
 Print Assumptions C07_pair_oracle_iff.
+
+(** constants of the model are the ones re-read from the Rust source on this run *)
+Theorem C07_source_tables :
+  agrees src_STACK_SEGS (N.of_nat JsonPtr.STACK_SEGS).
+Proof. exact c07_stack_segs_agree. Qed.
+Check C07_source_tables :
+  agrees src_STACK_SEGS (N.of_nat JsonPtr.STACK_SEGS).
+Print Assumptions C07_source_tables.
